@@ -134,7 +134,7 @@ func (r *runner) stalledPeer(t Target) {
 	}
 	if len(left) > 0 {
 		// they are lost for good: later waits must not wait for them again
-		stuck = Inflight()
+		setStuck("", Inflight())
 	}
 	if why := t.Alive(); why != "" {
 		r.s.Violate(hk.Violation{Fingerprint: "rpc:" + t.Kind() + ":not-alive-after-stalled-peer", What: "after a stalled peer has disconnected: " + why,
